@@ -33,7 +33,7 @@ LEVEL = "model_checking"
 MANIFEST = dict(
     category="model_checking",
     text="TLC decides conservation of deferred training steps, counter reset, update-only-if-better, cut-short-exactly and switch-once on every bounded history of Checkpointing.tla (a line-by-line model of assess_performance_and_checkpoint plus the caller's release loop); every transition of the observable state graph is replayed into the real function (return value and all five CheckpointState fields compared exactly), and traces of the real train_td7 (scripted environment, recording buffer/logger) are validated by CheckpointingTrace.tla which re-uses the same actions: the loop runs exactly trainSteps iterations and copies the checkpoint iff update. The logic is a small integer/comparison state machine, for which exhaustive small-scope model checking bound to the code by transition coverage is the right level.",
-    note="bounds: episode lengths 1-3, returns {-2,0,1,3} (thorough: wider), windows 1-3, thresholds 0-6, reset weight 1/2, 1 (thorough: 2), histories <= 5 (quick) / 8 checked, 7 replayed (thorough) episodes; train_td7 traces: 3 (quick) / 10 (thorough) scripted runs of 20-45 steps; trusted: TLC, the recording subclasses and name interposition in harness/drivers/c15.py",
+    note="bounds: episode lengths 1-3, returns {-2,0,1,3} (thorough: wider), windows 1-3, thresholds 0-6, reset weight 1/2, 1 (thorough: 2), histories <= 5 (quick) / 8 checked, 7 replayed (thorough) episodes; train_td7 traces: 4 (quick) / 11 (thorough) scripted runs incl. a continued call (global_step > learning_starts > 0) of 20-45 steps; trusted: TLC, the recording subclasses and name interposition in harness/drivers/c15.py",
     technique="TLA+ spec + TLC exhaustive state graph with action properties; transition-coverage replay into assess_performance_and_checkpoint; batched trace validation of train_td7 runs with a trace specification re-using the spec's actions",
 )
 
@@ -626,6 +626,9 @@ def scenarios(rep):
         # batch_size 16: the first three releases happen with 9, 11, 13 stored transitions (< batch_size), the later ones with >= 17
         dict(name="fixed-aligned", episodes=FIXED, ls=6, gs=0, maxEps=2, thresh=6, rw2=1, total=total, seed=1, batch=16),
         dict(name="fixed-straddle", episodes=FIXED, ls=5, gs=0, maxEps=2, thresh=6, rw2=1, total=total, seed=1, batch=4),
+        # continued call: global_step 5 > learning_starts 3 > 0, so epoch starts at 2; threshold 4 lies between the true
+        # iteration count (2) and count + learning_starts (5): the switch belongs to the first release (2 < 4 <= 5)
+        dict(name="fixed-resumed", episodes=FIXED[2:8], ls=3, gs=5, maxEps=2, thresh=4, rw2=1, total=5 + sum(e[0] for e in FIXED[2:8]), seed=2, batch=4),
     ]
     rng = random.Random(rep.seed)
     for i in range(1 if quick else 8):
